@@ -197,6 +197,11 @@ func renderWith(v ssa.Value, sub func(ssa.Value) ssa.Value) string {
 // rs is render with substitution; implemented by temporarily wrapping r.r.
 func (r *renderer) rs(v ssa.Value, sub func(ssa.Value) ssa.Value) string {
 	// A light-weight approach: substitute at the top and inside BinOp/UnOp/Call operands.
+	r.depth++
+	defer func() { r.depth-- }()
+	if r.depth > 40 {
+		return "…" // loop-carried value substituted into itself
+	}
 	v = sub(v)
 	switch x := v.(type) {
 	case *ssa.BinOp:
